@@ -19,5 +19,6 @@ CONSTANTS
   Bug_ImmDropEarly = FALSE
   Bug_FlushDeepDuringCompaction = FALSE
   Bug_ExpandKeepsParents = FALSE
+  Bug_ExpandNoBoundary = FALSE
 POSTCONDITION TraceAccepted
 CHECK_DEADLOCK FALSE
